@@ -1,9 +1,12 @@
 """C11 — best chain follows the fork-choice rule and indexes stay consistent.
 
-Part 1 (this file, forks family): specs/chain/Forks.tla with BestIsForkChoice /
-IndexIsAncestry / InMainIffAncestor; every transition replayed on a real node comparing
-BestBlockHash, GetHeaderByHeight(h) for every h and InMainChain(b) for every block.
-Hash ties are bound by grinding each block's hash to the rank the model chose.
+forks family (specs/chain/Forks.tla): no verification ever arrives; fork choice is height then
+largest hash. casper family (specs/chain/CasperNode.tla): own votes, delivered / carried / cached
+verification messages justify and finalize checkpoints, so the best chain also moves to *shorter*
+branches. In both, BestOf is stated declaratively over all stored blocks and TLC checks
+BestIsForkChoice / IndexIsAncestry / InMainIffAncestor; every transition is replayed on a real
+node comparing BestBlockHash, GetHeaderByHeight(h) for every h <= best and InMainChain(b) for every
+block. Hash ties are bound by grinding each block's hash to the rank the model chose.
 """
 import chain_lib
 
@@ -11,16 +14,11 @@ import chain_lib
 def run(ctx):
     quick = ctx.tier == "quick"
     cfg = "cfg/ForksGen.quick.cfg" if quick else "cfg/ForksGen.thorough.cfg"
-    o = chain_lib.run_forks(ctx, cfg, epochs=(100, 2) if quick else (100, 2, 3), timeout=3000)
-    r = o["tlc"]
-    ctx.finish("model_checking", dict(
-        states=r.distinct, transitions=r.generated,
-        traces_validated_against_impl=o["cases"], samples=o["samples"],
-        process_block_calls=o["delivers"], distinct_paths=o["distinct"],
-        divergences_attributed_to_other_properties=o["other"], exhaustive=True,
-        rule="every transition of Forks.tla within the cfg bounds, replayed with its path; after each ProcessBlock the best "
-             "block, the height index and InMainChain of every block are compared with the specification",
-    ), assumptions=[
-        "forks family: no verification messages, genesis is the only justified checkpoint (justification-driven "
-        "reorganisations are covered by the casper family)",
-    ])
+    parts = [chain_lib.run_forks(ctx, cfg, epochs=(100, 2)), chain_lib.run_casper(ctx)]
+    chain_lib.finish_chain(ctx, parts,
+        rule="every transition of Forks.tla and CasperNode.tla within the cfg bounds, replayed with its path; after the last call "
+             "of each path (every prefix is a path of its own) best block, height index and InMainChain of every block are compared",
+        assumptions=[
+            "the cached-verification loop is held at a gate (build tag verif) and released where the specification takes EpochTick",
+            "validator set = federation (no vote transactions); E = 2 in the casper family",
+        ])
